@@ -138,8 +138,14 @@ class HistogramCollection(Container[Histogram1D], ObjectWithBinning):
     def normalize_all(self, inplace: bool = False) -> "HistogramCollection":
         """Normalize all histograms so that total content of each of them is equal to 1.0."""
         col = self if inplace else self.copy()
-        for h in col.histograms:
-            h.normalize(inplace=True)
+        # All members first (one without entries cannot be normalized: then nobody is)
+        normalized = [h.normalize() for h in col.histograms]
+        for h, result in zip(col.histograms, normalized):
+            h._dtype = result._dtype
+            h._frequencies = result._frequencies
+            h._errors2 = result._errors2
+            h._missed = result._missed
+            h._stats = result._stats
         return col
 
     def sum(self) -> Histogram1D:
